@@ -274,8 +274,13 @@ func (g *generator) convertTo(ctx *builder.MethodContext, assignTo *builder.Assi
 		}
 	}
 
+	structID := sourceID
+	if sourcePointer {
+		structID = &xtype.JenID{Code: sourceID.Code, Variable: sourceID.Variable, ImplicitPointer: true}
+	}
+
 	var s builder.Struct
-	stmt, err := s.Assign(g, ctx, assignTo, sourceID, source, target.PointerInner, errPath)
+	stmt, err := s.Assign(g, ctx, assignTo, structID, source, target.PointerInner, errPath)
 	if sourcePointer {
 		stmt = []jen.Code{jen.If(sourceID.Code.Clone().Op("!=").Nil()).Block(stmt...)}
 	}
